@@ -55,7 +55,8 @@ def _is_vararg_signature(sig):
   for p in sig.parameters.values():
     if not p.kind == Parameter.VAR_POSITIONAL:
       return False
-  return True
+  # A callable without any parameters (e.g. a table-form) is not a varargs function
+  return len(sig.parameters) > 0
 
 def make_potential_form_tuple_from_function(name, pyfunc):
   sig = signature(pyfunc)
